@@ -1297,6 +1297,12 @@ class BufferedWriter(IndexWriter):
         with self.lock:
             IndexWriter.update_document(self, **fields)
 
+    def delete_by_query(self, q, searcher=None):
+        # Hold the lock from finding the documents to deleting them: a flush
+        # in between (timer, another thread reaching the limit) renumbers them
+        with self.lock:
+            return IndexWriter.delete_by_query(self, q, searcher=searcher)
+
     def delete_document(self, docnum, delete=True):
         with self.lock:
             base = self.index.doc_count_all()
